@@ -13,6 +13,15 @@ from . import core
 SRC = os.path.join(core.VERIF, "harness", "probe")
 
 
+def probe_env():
+    """Generated packages are different in every run: building them through the shared Go build cache makes it grow without
+    bound (136 GB were reached). Probe builds use a cache of their own inside the run's scratch directory (a cold build of the
+    fixture universe and the runtime costs about 12 s, 16 s more with -race)."""
+    env = dict(core.GOENV)
+    env["GOCACHE"] = core.subdir("gocache")
+    return env
+
+
 def helpers_version():
     txt = open(os.path.join(core.REPO, "go.mod")).read()
     m = re.search(r"github.com/gontainer/gontainer-helpers/v3\s+(\S+)", txt)
@@ -130,9 +139,10 @@ class Probe:
         self.failed = {}
         out = os.path.join(self.dir, "probe.bin")
         # pass 1: unresolvable imports (go build stops at the first few; go list -e reports all)
+        penv = probe_env()
         p = core.sh(["go", "list", "-e"] + (["-tags", tags] if tags else []) +
                     ["-f", "{{.ImportPath}}\t{{if .Error}}{{.Error.Err}}{{end}}\t{{range .DepsErrors}}{{.Err}};{{end}}", "./..."],
-                    cwd=self.dir, check=False, timeout=3600)
+                    cwd=self.dir, check=False, timeout=3600, env=penv)
         for line in p.stdout.split("\n"):
             parts = line.split("\t")
             if len(parts) == 3 and parts[0].startswith("probe.test/") and (parts[1].strip() or parts[2].strip()):
@@ -142,7 +152,7 @@ class Probe:
         for n in self.failed:
             shutil.move(os.path.join(self.dir, n), os.path.join(self.dir, "_failed_" + n))
         # pass 2: type errors (go build reports every failing package)
-        p = core.sh(["go", "build"] + (["-tags", tags] if tags else []) + ["./..."], cwd=self.dir, check=False, timeout=3600)
+        p = core.sh(["go", "build"] + (["-tags", tags] if tags else []) + ["./..."], cwd=self.dir, check=False, timeout=3600, env=penv)
         if p.returncode != 0:
             found = self._parse_failures(p.stdout)
             if not found:
@@ -157,7 +167,7 @@ class Probe:
                 f.write("package main\n\nimport (\n\t\"probe.test/rt\"\n%s\n)\n\nfunc main() { rt.Main() }\n" %
                         "\n".join('\t_ "probe.test/%s"' % n for n in good))
             cmd = ["go", "build"] + (["-race"] if race else []) + (["-tags", tags] if tags else []) + ["-o", out, "."]
-            p = core.sh(cmd, cwd=self.dir, check=False, timeout=3600)
+            p = core.sh(cmd, cwd=self.dir, check=False, timeout=3600, env=penv)
             if p.returncode == 0:
                 self.bin = out
                 return good
